@@ -54,6 +54,9 @@ type schedPlan struct {
 	Foreign bool     `json:"foreign_possible,omitempty"` // the tree starts goroutines of its own (set from the instrumenter's report)
 	Grants  bool     `json:"want_grants,omitempty"`
 	Focus   []int    `json:"focus,omitempty"` // informational: languages in focus
+	// Warm: calls made sequentially before the concurrent callers start; WarmJump: simulated idle ms after them
+	Warm     []plan.Op `json:"warm,omitempty"`
+	WarmJump int64     `json:"warm_jump_ms,omitempty"`
 }
 
 type schedStats struct {
@@ -78,6 +81,7 @@ type schedStats struct {
 }
 
 type schedOut struct {
+	Warm        []plan.Outcome     `json:"warm,omitempty"`
 	Outcomes    [][]plan.Outcome   `json:"outcomes"`
 	Delivered   [][]string         `json:"delivered"`
 	Reads       [][][]plan.ReadRec `json:"reads"`
@@ -263,6 +267,19 @@ func (g *c12Engine) runPlan(sp *schedPlan, env ...string) (*schedOut, *schedVerd
 		return &out, &schedVerdict{Class: "shared-input-modified", Key: "shared-input-modified", Detail: out.SharedMut}, nil
 	}
 	// every op's outcome equals its solo outcome
+	if len(out.Warm) != len(sp.Warm) {
+		return &out, nil, Troublef("%d warm-up outcomes for %d calls", len(out.Warm), len(sp.Warm))
+	}
+	for k := range sp.Warm {
+		want, err := g.solo.One(&sp.Warm[k])
+		if err != nil {
+			return &out, nil, err
+		}
+		if !out.Warm[k].Equal(want) {
+			return &out, &schedVerdict{Class: "diverge:" + sp.Warm[k].K, Key: "diverge/" + sp.Warm[k].Key(),
+				Detail: fmt.Sprintf("sequential warm-up call %d %s returned %s, but alone in a fresh process it returns %s", k, opBrief(&sp.Warm[k]), mustJSON(out.Warm[k]), mustJSON(want))}, nil
+		}
+	}
 	for t := range sp.Tasks {
 		if len(out.Outcomes[t]) != len(sp.Tasks[t]) {
 			return &out, nil, Troublef("task %d returned %d outcomes for %d ops", t, len(out.Outcomes[t]), len(sp.Tasks[t]))
@@ -434,8 +451,42 @@ func (g *c12Engine) Minimise(v *Violation) *Violation {
 	}
 	t0 := time.Now()
 	budget := func() bool { return time.Since(t0) < 90*time.Second }
-	// 1. drop whole tasks (their op lists are emptied so that task ids stay stable)
 	cur := ex
+	// 0. the sequential warm-up and the idle period
+	if len(cur.Warm) > 0 && budget() {
+		c := *cur
+		c.Warm = nil
+		if same(&c) {
+			cur = &c
+		} else {
+			w := cur.Warm
+			keep := DDMin(len(w), func(k []int) bool {
+				if !budget() {
+					return false
+				}
+				c := *cur
+				c.Warm = nil
+				for _, i := range k {
+					c.Warm = append(c.Warm, w[i])
+				}
+				return same(&c)
+			}, 30, 40*time.Second)
+			c := *cur
+			c.Warm = nil
+			for _, i := range keep {
+				c.Warm = append(c.Warm, w[i])
+			}
+			cur = &c
+		}
+	}
+	if cur.WarmJump != 0 && budget() {
+		c := *cur
+		c.WarmJump = 0
+		if same(&c) {
+			cur = &c
+		}
+	}
+	// 1. drop whole tasks (their op lists are emptied so that task ids stay stable)
 	for t := range cur.Tasks {
 		if !budget() || len(cur.Tasks[t]) == 0 {
 			continue
@@ -649,8 +700,19 @@ func genSchedPlan(seed uint64, pool []plan.Op, byLang map[int][]int, neutral []i
 		}
 		if len(seeds) > 0 {
 			same := pool[seeds[r.Intn(len(seeds))]] // the same derivation asked several times (memoising trees)
+			twin := same
+			if r.Intn(3) == 0 { // ... and a different derivation whose password||"mnemonic"||passphrase string coincides with it
+				a, b := []string{"", " #", "x"}[r.Intn(3)], []string{"2", "", "TREZOR"}[r.Intn(3)]
+				setP(&same, a+"mnemonic"+b)
+				twin = same
+				setM(&twin, same.Mnemonic()+"mnemonic"+a)
+				setP(&twin, b)
+			}
 			for t := 0; t < r.Range(2, 3); t++ {
 				ops := []plan.Op{same}
+				if t%2 == 1 {
+					ops[0] = twin
+				}
 				if r.Bool() {
 					ops = append(ops, pool[seeds[r.Intn(len(seeds))]])
 				}
@@ -729,7 +791,64 @@ func genSchedPlan(seed uint64, pool []plan.Op, byLang map[int][]int, neutral []i
 			}
 		}
 	}
+	// a process that has been serving for a while: sequential calls by the main goroutine before the concurrent
+	// callers start (state that only shows after N calls or N distinct inputs), possibly followed by idle time
+	warmSeeds := false
+	switch x := r.Intn(200); {
+	case x == 0: // many distinct derivations first; then concurrent lookups of the earliest and the latest of them
+		var base *plan.Op
+		for _, i := range neutral {
+			if pool[i].K == "seed" {
+				base = &pool[i]
+				break
+			}
+		}
+		if base != nil {
+			n := r.Range(130, 300)
+			for i := 0; i < n; i++ {
+				o := *base
+				o.Scribble = false
+				setP(&o, "w"+strconv.Itoa(i))
+				sp.Warm = append(sp.Warm, o)
+			}
+			sp.Tasks = nil
+			for t := 0; t < r.Range(3, 6); t++ {
+				var ops []plan.Op
+				for k := 0; k < r.Range(1, 3); k++ {
+					i := r.Intn(n / 4)
+					if r.Intn(4) == 0 {
+						i = n - 1 - r.Intn(4)
+					}
+					ops = append(ops, sp.Warm[i])
+				}
+				sp.Tasks = append(sp.Tasks, ops)
+			}
+			sp.Shared = nil
+			warmSeeds = true
+		}
+	case x < 3: // many cheap calls first
+		for i := 0; i < r.Range(200, 3000); i++ {
+			op := pool[cand[r.Intn(len(cand))]]
+			if op.K == "new" || op.K == "seed" {
+				continue
+			}
+			op.Scribble, op.Cap, op.Shared = false, 0, 0
+			sp.Warm = append(sp.Warm, op)
+		}
+	case x < 12: // the tables of the languages in focus warm, then idle time (clock seam), then the concurrent callers
+		for i := 0; i < r.Range(1, 6); i++ {
+			op := pool[cand[r.Intn(len(cand))]]
+			if op.K == "check" || op.K == "valid" {
+				op.Scribble, op.Cap, op.Shared = false, 0, 0
+				sp.Warm = append(sp.Warm, op)
+			}
+		}
+		sp.WarmJump = JumpVals[r.Intn(len(JumpVals))]
+	}
 	sc := schedule{Mode: "policy", Seed: r.Uint64()}
+	if warmSeeds {
+		gcPressure = false
+	}
 	switch x := r.Intn(10); {
 	case x < 4:
 		sc.Policy = "walk"
@@ -873,6 +992,11 @@ func CheckC12(e *Env) (int, error) {
 			policies[pol]++
 			if v != nil && v.Inconclusive != "" {
 				inconclusive[v.Inconclusive]++
+				nops := 0
+				for _, t := range sp.Tasks {
+					nops += len(t)
+				}
+				e.Logf("C12: inconclusive run %d (%s): %d tasks, %d calls, %d warm-up calls, schedule %s", i, v.Inconclusive, len(sp.Tasks), nops, len(sp.Warm), mustJSON(sp.Schedule))
 			} else if v != nil {
 				viols = append(viols, g.violation(sp, v))
 			}
